@@ -47,10 +47,10 @@ var c19Uniq int64
 
 type c19Srv struct {
 	appRead int
-	mu    sync.Mutex
-	read  map[string]int // per user name: bytes the server applications read
-	wrote map[string]int
-	conns []net.Conn
+	mu      sync.Mutex
+	read    map[string]int // per user name: bytes the server applications read
+	wrote   map[string]int
+	conns   []net.Conn
 }
 
 func counterValue(user, metric string) int64 {
@@ -254,14 +254,6 @@ func c19EndpointRun(c *core.Ctx, k c19EPCase) {
 	delivered := srv.read[limited] - before
 	srv.mu.Unlock()
 	c.Hist("quota_probe", fmt.Sprintf("delta=%+d refuse=%v", k.Delta, shouldRefuse))
-	q1 := c.Model.Ask("quota-refuse %d 1", total)
-	c.Compared()
-	if q1 != fmt.Sprintf("ok %v", shouldRefuse) {
-		// the driver op may not exist in every revision; only a definite contradiction counts
-		if q1 == fmt.Sprintf("ok %v", !shouldRefuse) {
-			c.Disagree("C19/corr/quota-refuse", fmt.Sprintf("model %s, arithmetic says refuse=%v for %d bytes", q1, shouldRefuse, total), k)
-		}
-	}
 	if shouldRefuse {
 		if pe > 0 {
 			c.Violate("C19/quota/refused-session-echoed", fmt.Sprintf("limited user moved %d bytes (≥ %d) yet a new session echoed %d bytes", total, refusal, pe), k)
